@@ -202,8 +202,12 @@ class Graph(StateRepresentationBase):
             in the symplectic formalism. If not, graphs are not LC equivalent and returns False, None.
         :rtype: bool, numpy.ndarray or None
         """
-        g1 = nx.to_numpy_array(self.data).astype(int)
-        g2 = nx.to_numpy_array(other_graph.data).astype(int)
+        # both matrices in one common node order: each graph's own insertion order describes a relabelled graph
+        nodelist = list(self.data.nodes)
+        if set(nodelist) != set(other_graph.data.nodes):
+            nodelist = None
+        g1 = nx.to_numpy_array(self.data, nodelist=nodelist).astype(int)
+        g2 = nx.to_numpy_array(other_graph.data, nodelist=nodelist).astype(int)
         return is_lc_equivalent(g1, g2, mode=mode)
 
     @property
